@@ -6,7 +6,7 @@ SPEC on the implementation (recording adapter implementing Adapter + BatchAdapte
   * load_policy directly after such a history changes no decision and no rule."""
 from ..core import Check
 from .. import mgmt
-from ..specs import truthy
+from ..specs import truthy, fmatch
 
 PROP = "C09"
 W = dict(p_update_filtered=0.6, probe=0, query=1, load=0, save=0.6, clear=0, build=0, flags=0, rbac=5)
@@ -21,6 +21,15 @@ def rows_by_pt(rows):
     return d
 
 
+def upd_filtered_listed(op, mem_before):
+    """the fingerprint of the listed finding C09/update-filtered-policies: the call selects nothing, or replaces by nothing, or
+    one of the replacement rules is already stored (or repeated in the call) - the cases in which the adapter was told
+    before the outcome of the memory side was known"""
+    new, i, vs = op[1], op[2], op[3]
+    sel = [r for r in mem_before if fmatch(r, i, vs)]
+    return (not sel) or (not new) or any(r in mem_before for r in new) or len({tuple(r) for r in new}) != len(new)
+
+
 def _spec_scan(kind, rows, lf, ops, obs, impl, skip):
     """first violation at a step not in `skip`"""
     out = []
@@ -30,7 +39,10 @@ def _spec_scan(kind, rows, lf, ops, obs, impl, skip):
         c = op[0]
         res, acalls, db = o[0], o[1], rows_by_pt(o[6])
         mem = {0: o[3], 1: o[4], 2: o[5]}
-        tag = KNOWN_UPD_FILTERED if c == 8 else None
+        tag = None
+        if c == 8:
+            mem_before = obs[i - 1][3] if i > 0 else ([r for pt, r in rows if pt == 0] if lf else [])
+            tag = KNOWN_UPD_FILTERED if upd_filtered_listed(op, mem_before) else None
         was_synced, synced = synced, all(sorted(db[pt]) == sorted(mem[pt]) for pt in (0, 1, 2))
         if c == 35:
             auto_save = bool(op[1])
@@ -201,7 +213,10 @@ def after_update_filtered_probe(chk):
     r = lambda s_, o_, a_: [A(s_), A(o_), A(a_)]
     rows = [(0, r("alice", "data1", "read")), (0, r("bob", "data2", "write")), (0, r("alice", "data2", "read"))]
     shapes = [(8, [], 0, [A("bob")]), (8, [], 0, [A("carol")]), (8, [r("carol", "data1", "read")], 0, [A("alice")]),
-              (8, [r("bob", "data2", "write")], 0, [A("alice")]), (8, [r("carol", "x", "y")], 0, [A("nobody")])]
+              (8, [r("bob", "data2", "write")], 0, [A("alice")]), (8, [r("carol", "x", "y")], 0, [A("nobody")]),
+              # a filter of blanks only selects EVERY rule: the whole policy is replaced
+              (8, [r("carol", "data1", "read")], 0, [0]), (8, [r("carol", "data1", "read"), r("dan", "data9", "read")], 1, [0, 0]),
+              (8, [r("carol", "data1", "read")], 0, [])]
     after = [(1, 0, r("erin", "data1", "read")), (3, 0, r("bob", "data2", "write")), (2, 0, [r("dan", "data1", "read"), r("dan", "data2", "read")]),
              (4, 0, [r("erin", "data1", "read")]), (6, r("dan", "data1", "read"), r("dan", "data1", "write"))]
     n = 0
@@ -210,6 +225,25 @@ def after_update_filtered_probe(chk):
         mgmt.run_cases(chk, kind, [(rows, True, ops)], spec_check, label="after-update-filtered", compare_model=False)
         n += 1
     chk.extra.setdefault("strata", {})["after_update_filtered_probe"] = n
+
+
+def large_batch_probe(chk):
+    """batch calls are not bounded by the handful of rules the histories use: add_policies / remove_policies /
+    add_grouping_policies with several hundred rules (251, 500, 777), then a partial batch removal and single calls - the
+    adapter's rows must equal the in-memory policy after each"""
+    A = mgmt.ATOMS.a
+    n = 0
+    for kn in ("acl", "rbac"):
+        kind = mgmt.KINDS[kn]
+        for size in (251, 500, 777):
+            big = [[A(f"user{i}"), A(f"res{i % 7}"), A("read")] for i in range(size)]
+            ops = [(2, 0, big), (3, 0, big[0]), (4, 0, big[1:size - 3]), (1, 0, big[5])]
+            if kind.g:
+                gs = [[A(f"user{i}"), A(f"group{i % 5}")] for i in range(size)]
+                ops += [(2, 1, gs), (4, 1, gs[2:])]
+            mgmt.run_cases(chk, kind, [([], True, ops)], spec_check, label=f"large-batch-{kn}", compare_model=False)
+            n += 1
+    chk.extra.setdefault("strata", {})["large_batch_probe"] = n
 
 
 def reload_model_probe(chk):
@@ -256,6 +290,7 @@ def run(chk, n):
     reload_model_probe(chk)
     odd_priority_probe(chk)
     after_update_filtered_probe(chk)
+    large_batch_probe(chk)
     for kn in ("acl", "rbac", "dom", "rbac_res", "prio"):
         cases = make_cases(rng, kn, n)
         by_kind = {}
